@@ -6,7 +6,13 @@ ASLR, a different environment size and a different cwd depth.  Oracle: identical
 file-name sets, byte-identical contents; then `--check` against the first output
 exits 0.  Worlds are LARGE (many interfaces / packages / types: hash-map order
 only shows with more than a handful of entries) plus multi-interface corpus
-inputs (tests/codegen/wasi-*, multiversion, ...)."""
+inputs (multiversion, issue569, ...) plus eight DIRECTED worlds
+(genrun::hash_order_worlds) that each stress one generator collection with more
+than 8 entries (borrows of imported resources in one export, structurally equal
+named types in 12 interfaces, many resources/methods, many future/stream payload
+types, many world-level items, many `use`d types, many packages/versions, many
+interfaces); the directed worlds run at every seed for every backend with the
+default and every option variant crates/test uses."""
 import concurrent.futures
 import hashlib
 import json
@@ -190,7 +196,7 @@ def run(tier, seed, replay):
                           "world": r.get("world"), "key": "replay", "input": r.get("input", "replay")})
             nruns = 8
         else:
-            n_random = 60 if thorough else 12
+            n_random = 60 if thorough else 8
             wdir = os.path.join(scratch, "worlds")
             idx_p = os.path.join(scratch, "worlds.json")
             _tool(bindir, ["worlds", "--seed", str(seed), "--n", str(n_random), "--profile", "large", "--dir", wdir, "--out", idx_p],
@@ -207,11 +213,26 @@ def run(tier, seed, replay):
             }
             inputs = [{"src": w["path"], "world": None, "key": w["shape"], "input": "random:" + os.path.basename(w["path"]), "wit": True}
                       for w in idx["worlds"]]
+            # directed hash-order-sensitive worlds: every seed, every backend, default + every variant crates/test uses
+            hdir = os.path.join(scratch, "ho")
+            hidx_p = os.path.join(scratch, "ho.json")
+            _tool(bindir, ["hash-order-worlds", "--dir", hdir, "--out", hidx_p], "genrun-tool hash-order-worlds")
+            with open(hidx_p) as f:
+                hidx = json.load(f)
+            directed = []
+            for w in hidx["worlds"]:
+                if not w.get("valid"):
+                    rep.inconc("directed world %s is not valid: %s" % (w["name"], str(w.get("error"))[:200]))
+                    continue
+                directed.append({"src": w["path"], "world": None, "key": "directed:" + w["name"], "input": "directed:" + w["name"], "wit": True,
+                                 "directed": True})
+            rep.extra["directed_worlds"] = len(directed)
+            inputs = directed + inputs
             corpus = [c for c in table["corpus"] if c.get("world")]
             big = [c for c in corpus if c["is_dir"] or (c.get("interfaces") or 0) >= 4]
             small = [c for c in corpus if c not in big]
             pick = list(big)
-            n_small = len(small) if thorough else 5
+            n_small = len(small) if thorough else 4
             while small and n_small > 0:
                 pick.append(small.pop(rng.below(len(small))))
                 n_small -= 1
@@ -221,6 +242,12 @@ def run(tier, seed, replay):
             for inp in inputs:
                 for backend, vs in sorted(variants.items()):
                     chosen = [vs[0]]
+                    if inp.get("directed"):
+                        chosen = [v for v in vs if v["tested"]] if not thorough else list(vs)
+                        for v in chosen:
+                            cases.append({"backend": backend, "variant": v["name"], "flags": v["flags"], "src": inp["src"],
+                                          "world": inp["world"], "key": inp["key"], "input": inp["input"], "is_wit": True})
+                        continue
                     extra = 2 if thorough else (1 if rng.chance(1, 2) else 0)
                     while extra > 0 and len(chosen) < len(vs):
                         v = vs[1 + rng.below(len(vs) - 1)]
